@@ -392,6 +392,25 @@ class Crate:
             out.append(i)
         return out
 
+    def resolve_trait_call(self, f):
+        """late resolution of a call to a method of a *local trait* whose Self type became concrete (after the type
+        parameters of a generic helper were instantiated): the impl of that trait for that type, if it is local and unique.
+        Returns a `resolved`-style dict or None."""
+        tr = f.get("trait")
+        st = f.get("self_ty")
+        if not tr or st is None or (f.get("resolved") or {}).get("local"):
+            return None
+        if any("param" in n for n in walk_ty(st)):
+            return None
+        hits = [i for i in self.impls if i.get("trait") == tr and tystr(i.get("self_ty")) == tystr(st) and f.get("name") in i.get("items", {})]
+        if len(hits) != 1:
+            return None
+        bid = hits[0]["items"][f["name"]]
+        b = self.by_id.get(bid)
+        if b is None:
+            return None
+        return {"def": b.path, "id": bid, "local": True, "self_ty": st, "substs": list(f.get("substs") or [])[1:]}
+
     def methods_of_impl(self, impl):
         """name -> Body for the fn items of an impl"""
         out = {}
